@@ -14,7 +14,7 @@ public:
     }
 
     explicit Delay(const dsplib::base_array<T>& initial)
-      : _buffer{initial} {
+      : _buffer(initial) {
     }
 
     dsplib::base_array<T> process(const dsplib::base_array<T>& x) {
